@@ -1161,6 +1161,31 @@ def op_x_listing(req):
     return {"text": out.getvalue()}
 
 
+def op_x_c19(req):
+    """C19 on this host: freeze() a portable code object carrying an {offset: line} table, decode it with the table's own
+    findlinestarts"""
+    x = xd()
+    ct = x.codetype
+    typ, first, codelen = req["type"], req["first"], req["codelen"]
+    table = dict((o, l) for o, l in req["pairs"])
+    common = dict(co_argcount=0, co_nlocals=0, co_stacksize=1, co_flags=64, co_code=bytes([9] * codelen), co_consts=(None,),
+                  co_names=(), co_varnames=(), co_filename="f.py", co_name="f", co_firstlineno=first, co_freevars=(), co_cellvars=())
+    if typ == "Code2":
+        p = ct.Code2(co_lnotab=table, **common)
+    elif typ == "Code3":
+        p = ct.Code3(co_kwonlyargcount=0, co_lnotab=table, **common)
+    elif typ == "Code38":
+        p = ct.Code38(co_posonlyargcount=0, co_kwonlyargcount=0, co_lnotab=table, **common)
+    else:
+        p = ct.Code310(co_posonlyargcount=0, co_kwonlyargcount=0, co_linetable=table, **common)
+    p = p.freeze()
+    frozen = p.co_linetable if typ == "Code310" else p.co_lnotab
+    if isinstance(frozen, str):
+        frozen = frozen.encode("latin-1")
+    opc = x.disasm.get_opcode(tuple(req["vt"]), False)
+    return {"frozen": hx(bytes(frozen)), "decoded": [[a, b] for a, b in opc.findlinestarts(p)]}
+
+
 def op_x_o2l(req):
     """C05: xdis.offset2line on this host"""
     x = xd()
